@@ -1,7 +1,7 @@
 SPECIFICATION Spec
 CONSTANTS
   SafeStore = TRUE
-  CopyOnReuse = FALSE
+  CopyOnReuse = TRUE
   GuardTypedNil = TRUE
   BinMarshalerOpts = TRUE
   ClonesCapLimited = TRUE
@@ -10,7 +10,7 @@ CONSTANTS
   FreshStore = TRUE
   RewindsSeekable = FALSE
   FlagsReset = TRUE
-  PipeClosedOnStop = TRUE
+  PipeClosedOnStop = FALSE
   MaxRecs = 2
   MaxFields = 2
   FieldIds = {1, 2}
